@@ -15,3 +15,13 @@ c10_eligible = mc_c10.eligible
 c10_units = lambda valid: [0]
 c10_build = mc_c10.build(FAMILY, 3)
 c10_attempts = mc_c10.attempts
+
+
+def c10_plan_request(valid, unit, v, r):
+    """model-driver request for the SPEC's plan script of this (base, vector, r) — see props/families/valve.py; theorems
+    C10_mcjava_query_* (Props/C10_mcjava_whole.lean)"""
+    import re
+    m = re.fullmatch(r"mj(\d+)_(\d+)", valid.id)
+    if not m:
+        return None
+    return f"mcjavaplan {m.group(1)} {m.group(2)} {r} {v}"
